@@ -265,16 +265,16 @@ Qed.
 
 Theorem src_closed_thick_segment_iter_run F pts w so segs :
   closed_thick_segment_iter pts w so = Some segs -> fuel_ok pts w F ->
-  exists s0 n, src_ClosedThickSegmentIter_new F pts w so = Some s0 /\ src_ctsi_drive F n s0 = Some segs.
+  exists s0 n, (n <= length pts + 4)%nat /\ src_ClosedThickSegmentIter_new F pts w so = Some s0 /\ src_ctsi_drive F n s0 = Some segs.
 Proof.
   intros H HF. unfold closed_thick_segment_iter in H. unfold src_ClosedThickSegmentIter_new.
   destruct pts as [|a [|b [|c r]]].
-  - injection H as <-. exists src_ClosedThickSegmentIter_empty, 1%nat. split; reflexivity.
+  - injection H as <-. exists src_ClosedThickSegmentIter_empty, 1%nat. split; [cbn; lia|]. split; reflexivity.
   - discriminate.
   - destruct (lj_start a b w so) as [sj|] eqn:E1; [|discriminate].
     assert (Ia : In a [a; b]) by (left; reflexivity). assert (Ib : In b [a; b]) by (right; left; reflexivity).
     rewrite (src_lj_start_eq _ _ _ _ _ F E1 (HF _ _ Ia Ib)). cbv zeta.
-    eexists. exists 5%nat. split; [reflexivity|].
+    eexists. exists 5%nat. split; [cbn; lia|]. split; [reflexivity|].
     change src_closed_EMPTY with (@nil point). fold (ctsi_state [] sj sj w so [a; b] false (Z.of_nat 1)).
     apply (ctsi_drive_eq F w so [a; b] HF 4 [] sj sj 1 segs H). intros x [].
   - set (pts := a :: b :: c :: r) in *.
@@ -286,7 +286,7 @@ Proof.
     rewrite slice_last_last_opt, EZ.
     change (Casts.slice_nth (P 0 0) pts 0) with a. change (Casts.slice_nth (P 0 0) pts 1) with b.
     rewrite (src_lj_from_points_eq _ _ _ _ _ _ F E1 (HF _ _ Iz Ia) (HF _ _ Ia Ib)).
-    eexists. exists (Datatypes.S (length pts + 3)). split; [reflexivity|].
+    eexists. exists (Datatypes.S (length pts + 3)). split; [lia|]. split; [reflexivity|].
     fold (ctsi_state pts sj sj w so pts false (Z.of_nat 1)).
     apply (ctsi_drive_eq F w so pts HF (length pts + 3) pts sj sj 1 segs H). intros x Hx. exact Hx.
 Qed.
